@@ -376,19 +376,29 @@ func loadKnown() {
 	if fn == "" {
 		fn = "/verif/KNOWN_FINDINGS.json"
 	}
-	b, err := os.ReadFile(fn)
-	if err != nil {
-		return
+	type ent struct {
+		Key    string `json:"key"`
+		Status string `json:"status"`
 	}
-	var doc struct {
-		Findings []struct {
-			Key    string `json:"key"`
-			Status string `json:"status"`
-		} `json:"findings"`
+	if b, err := os.ReadFile(fn); err == nil {
+		var doc struct {
+			Findings []ent `json:"findings"`
+		}
+		if json.Unmarshal(b, &doc) == nil {
+			for _, f := range doc.Findings {
+				known[f.Key] = f.Status
+			}
+		}
 	}
-	if json.Unmarshal(b, &doc) == nil {
-		for _, f := range doc.Findings {
-			known[f.Key] = f.Status
+	// single-entry files next to the main file: findings/*.entry.json
+	if fs, err := filepath.Glob(filepath.Join(filepath.Dir(fn), "findings", "*.entry.json")); err == nil {
+		for _, f := range fs {
+			if b, err := os.ReadFile(f); err == nil {
+				var e ent
+				if json.Unmarshal(b, &e) == nil && e.Key != "" {
+					known[e.Key] = e.Status
+				}
+			}
 		}
 	}
 }
